@@ -374,6 +374,10 @@ def run(ctx):
         pass
     eqcov_impl(ctx, rule, PP + "::PingPongContinuation", "eq", "PartialEq")
     ctx.floor(rule, 4)
+    # a stored continuation holds a verifier state and a message of ANY aggregator implementation: their writers and readers
+    # must agree on the order of the fields (shared with C07; includes the test-util dummy VDAF)
+    from rules import c07
+    c07.order_rules(ctx, "R-C12.S.order")
 
     # ---------------- purity / restart
     rule = "R-C12.P.pure"
